@@ -217,13 +217,18 @@ def run(res):
     okm, outm = maclib.build_mac()
     base = [c for c in semstage.gen_cases(res.seed + 4, 400 if res.tier == "quick" else 4000, closures=False)]
     progs, metas = [], []
-    styles = ["multiline", "tabs", "crlf", "unicode"]
+    styles = ["multiline", "tabs", "crlf", "unicode", "split"]
     per = 40
     chunk = []
     for c in base:
         try:
             st_ = rng.choice(styles)
-            pat = relayout(c["pattern"], rng, st_)
+            if st_ == "split":
+                # the tokens of one sub-pattern on different lines, the continuation left of where it began
+                import patgen
+                pat = patgen.split_spaces(relayout(c["pattern"], random.Random(rng.random()), "multiline"), rng, 0.3)
+            else:
+                pat = relayout(c["pattern"], rng, st_)
         except ValueError:
             continue
         chunk.append((c, pat, st_))
